@@ -2,13 +2,13 @@
    "valid_mag <-> the four conditions of the property" for ALL ADMGs (bows allowed) on at most 4 nodes. *)
 From Coq Require Import List Arith Bool Lia.
 From PG Require Import Base.ListSet Graph.MGraph Graph.MSep C06.Model C06.Enum C07.Model C07.Enum C07.BoundedDefs
-  C07.Bounded_s0 C07.Bounded_s1 C07.Bounded_s2 C07.Bounded_s3.
+  C07.Bounded_s00 C07.Bounded_s01 C07.Bounded_s02 C07.Bounded_s03 C07.Bounded_s04 C07.Bounded_s05 C07.Bounded_s06 C07.Bounded_s07 C07.Bounded_s08 C07.Bounded_s09 C07.Bounded_s10 C07.Bounded_s11 C07.Bounded_s12 C07.Bounded_s13 C07.Bounded_s14 C07.Bounded_s15.
 Import ListNotations.
 
 Lemma small_n : forallb (fun n => forallb max_ok (admgs n)) [0; 1; 2; 3] = true.
 Proof. vm_cast_no_check (eq_refl true). Qed.
 
-Lemma shards_cover : psublists (all_upairs 4) = bshard 0 ++ bshard 1 ++ bshard 2 ++ bshard 3.
+Lemma shards_cover : psublists (all_upairs 4) = bshard 0 ++ bshard 1 ++ bshard 2 ++ bshard 3 ++ bshard 4 ++ bshard 5 ++ bshard 6 ++ bshard 7 ++ bshard 8 ++ bshard 9 ++ bshard 10 ++ bshard 11 ++ bshard 12 ++ bshard 13 ++ bshard 14 ++ bshard 15.
 Proof. vm_compute. reflexivity. Qed.
 
 Lemma admgs_with_app n l1 l2 g :
@@ -24,7 +24,19 @@ Proof.
   apply admgs_with_app in H. destruct H as [H|H]; [exact (proj1 (forallb_forall _ _) shard_0 g H)|].
   apply admgs_with_app in H. destruct H as [H|H]; [exact (proj1 (forallb_forall _ _) shard_1 g H)|].
   apply admgs_with_app in H. destruct H as [H|H]; [exact (proj1 (forallb_forall _ _) shard_2 g H)|].
-  exact (proj1 (forallb_forall _ _) shard_3 g H).
+  apply admgs_with_app in H. destruct H as [H|H]; [exact (proj1 (forallb_forall _ _) shard_3 g H)|].
+  apply admgs_with_app in H. destruct H as [H|H]; [exact (proj1 (forallb_forall _ _) shard_4 g H)|].
+  apply admgs_with_app in H. destruct H as [H|H]; [exact (proj1 (forallb_forall _ _) shard_5 g H)|].
+  apply admgs_with_app in H. destruct H as [H|H]; [exact (proj1 (forallb_forall _ _) shard_6 g H)|].
+  apply admgs_with_app in H. destruct H as [H|H]; [exact (proj1 (forallb_forall _ _) shard_7 g H)|].
+  apply admgs_with_app in H. destruct H as [H|H]; [exact (proj1 (forallb_forall _ _) shard_8 g H)|].
+  apply admgs_with_app in H. destruct H as [H|H]; [exact (proj1 (forallb_forall _ _) shard_9 g H)|].
+  apply admgs_with_app in H. destruct H as [H|H]; [exact (proj1 (forallb_forall _ _) shard_10 g H)|].
+  apply admgs_with_app in H. destruct H as [H|H]; [exact (proj1 (forallb_forall _ _) shard_11 g H)|].
+  apply admgs_with_app in H. destruct H as [H|H]; [exact (proj1 (forallb_forall _ _) shard_12 g H)|].
+  apply admgs_with_app in H. destruct H as [H|H]; [exact (proj1 (forallb_forall _ _) shard_13 g H)|].
+  apply admgs_with_app in H. destruct H as [H|H]; [exact (proj1 (forallb_forall _ _) shard_14 g H)|].
+  exact (proj1 (forallb_forall _ _) shard_15 g H).
 Qed.
 
 (* E, Bi ARBITRARY edge lists: the ADMG on 0..n-1 with directed edge set E and bidirected edge set Bi *)
